@@ -4,7 +4,7 @@
    continuation, [resume] = the next ParseTokens call), regexes generated from lexer.go. *)
 From Coq Require Import ZArith List Bool.
 From ZV Require Import Model.Regex Generated.LexTables Model.Lexer Model.Reader Model.TokScan Proofs.LexerProofs Proofs.ReaderProofs
-  Proofs.RegexProofs Proofs.ReaderTotal Proofs.LexerWF Proofs.ReaderUnfinished.
+  Proofs.RegexProofs Proofs.ReaderTotal Proofs.LexerWF Proofs.ReaderUnfinished Proofs.SugarTokens Proofs.ScanSim Proofs.Unfinished.
 Import ListNotations.
 Open Scope Z_scope.
 
@@ -81,16 +81,16 @@ Print Assumptions chunk_independent_before_fix_refuted_dotted.
      forall text, fst (observe (parse_whole true fuel text)) <> StErr ->
        (fst (observe (parse_whole true fuel text)) = StMore <-> unfinished text = Some true)
    The direction -> is FALSE of the faithful model (finding sign-symbol-at-end): a complete text
-   that ends in the symbol - or + asks for more input (the -Inf look-ahead).  The direction <- is
-   checked on every run against the implementation (no proof). ---- *)
+   that ends in the symbol - or + asks for more input (the -Inf look-ahead).  Both directions, with
+   that exception as an explicit disjunct, are 5b / 5c. ---- *)
 Theorem needmore_iff_unfinished_refuted_sign : exists text,
-  unfinished text = Some false /\ fst (observe (parse_whole true false 100 text)) = StMore.
+  unfinished text = Some false /\ fst (observe (parse_whole true true 100 text)) = StMore.
 Proof. exists [40; 43; 32; 49; 32; 50; 41; 32; 45]. vm_compute. split; reflexivity. Qed.
 Print Assumptions needmore_iff_unfinished_refuted_sign.
 
 (* instances of <- : open string at top level, open raw string, open block comment, open bracket *)
 Example ex_unfinished_ask_more :
-  map (fun t => (unfinished t, fst (observe (parse_whole true false 100 t))))
+  map (fun t => (unfinished t, fst (observe (parse_whole true true 100 t))))
       [[34; 97; 98; 99]; [96; 97]; [47; 42; 32; 97]; [40; 97]; [37; 32]; [47; 42; 42; 42; 47; 32; 97]]
   = [(Some true, StMore); (Some true, StMore); (Some true, StMore); (Some true, StMore); (Some true, StMore); (Some false, StDone)].
 Proof. vm_compute. reflexivity. Qed.
@@ -100,10 +100,9 @@ Proof. vm_compute. reflexivity. Qed.
    comment / raw string, reader prefix % ^ ~ ~@ pending, last token is the symbol - / +;
    tfinal = depth 0, not inside, nothing pending; sunf = depth > 0 or inside or pending or sign).
    Side condition curly_plain: no '{' token is directly followed by a comment token (then the '{'
-   look-ahead skips nothing; with comments there the code has the defect curly-comment-drop, see
-   done_implies_finished_refuted_curly).  text_tokens text = the tokens of text ++ newline.
-   The link between this token scanner and the rune scanner [unfinished] is checked on every run
-   (field V of the model output), not proved. ---- *)
+   look-ahead skips nothing; the proof does not cover the comment-skipping loop, and before the fix of
+   that case the statement was false there: done_implies_finished_before_fix_refuted_curly).  text_tokens text = the tokens of text ++ newline.
+   The link between this token scanner and the rune scanner [unfinished] is 5c below. ---- *)
 Theorem done_implies_finished : forall cfix fuel text acc f st,
   parse_whole true cfix fuel text = ODone acc f ->
   curly_plain (text_tokens text) = true ->
@@ -117,16 +116,60 @@ Theorem more_implies_unfinished : forall cfix fuel text acc n toks k st,
   parse_whole true cfix fuel text = OSusp acc n toks k ->
   curly_plain (text_tokens text) = true ->
   trun st0 (text_tokens text) = Some st ->
-  exists sts, trun sts toks = Some st /\ sunf sts = true.
+  (length toks <= n)%nat /\ exists sts, trun sts toks = Some st /\ sunf sts = true.
 Proof. exact ReaderUnfinished.more_implies_unfinished. Qed.
 Print Assumptions more_implies_unfinished.
 
-(* without the side condition (A) is false of the code as it is: `{ { // c<newline> }` *)
-Theorem done_implies_finished_refuted_curly : exists text st,
+(* before the fix of the '{' comments '}' case (cfix = false) (A) was false: `{ { // c<newline> }`
+   (replayed on the real code before the fix; the witness is an edge text of the harness) *)
+Theorem done_implies_finished_before_fix_refuted_curly : exists text st,
   fst (observe (parse_whole true false 100 text)) = StDone /\
   trun st0 (text_tokens text) = Some st /\ tfinal st = false.
 Proof. exists [123; 32; 123; 32; 47; 47; 32; 99; 10; 32; 125]. eexists. vm_compute. repeat split; reflexivity. Qed.
-Print Assumptions done_implies_finished_refuted_curly.
+Print Assumptions done_implies_finished_before_fix_refuted_curly.
+
+(* ---- 5c. the same for ALL texts at the level of RUNES, against the independent rune scanner
+   [unfinished] (Model/Reader.v scan: brackets, strings, raw strings, comments, char literals, reader
+   prefix).  scan_simulates_lexer: a simulation between scan_step and lex_rune (all 13 lexer modes):
+   on every lexically correct text the scanner's mode / depth / pending flag correspond to the lexer
+   mode and to the token scanner's state over the tokens emitted so far.  Composition with 5b:
+   (A) done_not_unfinished: lexically_ok text -> parse text = Done -> text is not an unfinished prefix
+       (contrapositive of `lexically_ok -> unfinished -> not Done`; an unfinished text may still be a
+       hard error, e.g. "(]" + "(", so `= NeedMore` holds exactly when the parse is not Err);
+   (B) more_finished_is_sign: lexically_ok text -> parse text = NeedMore (every yield except those of the
+       '{' look-ahead, n = 0) -> text NOT unfinished -> the last token is the symbol - or +
+       (i.e. NeedMore -> unfinished \/ ends_in_sign_symbol).
+   (B') more_top_unfinished: the other request for more input (OMoreTop: the text ends inside a string
+       or char literal) is an unfinished prefix for the scanner too.
+   Side condition: curly_plain (5b). ---- *)
+Theorem scan_simulates_lexer : forall text s', lex_all init_lstate text = LOk s' -> Rel (scan text) s'.
+Proof. exact ScanSim.scan_simulates_lexer. Qed.
+Print Assumptions scan_simulates_lexer.
+
+Theorem done_not_unfinished : forall cfix fuel text acc f s',
+  lex_all init_lstate (text ++ nl) = LOk s' ->
+  parse_whole true cfix fuel text = ODone acc f ->
+  curly_plain (text_tokens text) = true ->
+  unfinished text <> Some true.
+Proof. exact Unfinished.done_not_unfinished. Qed.
+Print Assumptions done_not_unfinished.
+
+Theorem more_finished_is_sign : forall cfix fuel text acc toks k s',
+  lex_all init_lstate (text ++ nl) = LOk s' -> in_string_or_rune s' = false ->
+  parse_whole true cfix fuel text = OSusp acc 0 toks k ->
+  curly_plain (text_tokens text) = true ->
+  unfinished text = Some false ->
+  exists d a p, trun st0 (text_tokens text) = Some (d, a, p, true).
+Proof. exact Unfinished.more_finished_is_sign. Qed.
+Print Assumptions more_finished_is_sign.
+
+Theorem more_top_unfinished : forall cfix fuel text acc f s',
+  lex_all init_lstate (text ++ nl) = LOk s' ->
+  parse_whole true cfix fuel text = OMoreTop acc f ->
+  curly_plain (text_tokens text) = true ->
+  unfinished text = Some true.
+Proof. exact Unfinished.more_top_unfinished. Qed.
+Print Assumptions more_top_unfinished.
 
 (* ---- 6. the last token is never lost: after the final newline that WholeText supplies, a lexer
    in normal mode has nothing pending in its atom buffer (every atom became a token) ---- *)
@@ -164,8 +207,21 @@ Print Assumptions read_total_pieces.
 
 (* the crash outcomes are not vacuous: on a token list the lexer cannot produce the reader does panic *)
 Example ex_crash_site :
-  fst (observe (ptop true false 10 [] (mkQ [mkTok TBeginBlockComment []; mkTok TSymbol [97]] false false))) = StCrash.
+  fst (observe (ptop true true 10 [] (mkQ [mkTok TBeginBlockComment []; mkTok TSymbol [97]] false false))) = StCrash.
 Proof. vm_compute. reflexivity. Qed.
+
+(* ---- 8. reader sugar at the token level: a reader prefix in front of a form lexes to the prefix
+   token followed by exactly the tokens of the form (same error flag).  The look-back ring makes
+   this non-trivial: the rune before the form is the prefix rune instead of the start of the text;
+   it holds because % ^ ~ @ are in canStartSignedNumberAfter (so %-2 keeps its sign). ---- *)
+Theorem sugar_tokens : forall t,
+  lex_text (37 :: t) = (mkTok TQuote [] :: fst (lex_text t), snd (lex_text t)) /\
+  lex_text (94 :: t) = (mkTok TCaret [] :: fst (lex_text t), snd (lex_text t)) /\
+  lex_text (126 :: 64 :: t) = (mkTok TTildeAt [] :: fst (lex_text t), snd (lex_text t)) /\
+  (forall r, r <> 64 ->
+     lex_text (126 :: r :: t) = (mkTok TTilde [] :: fst (lex_text (r :: t)), snd (lex_text (r :: t)))).
+Proof. exact SugarTokens.sugar_tokens. Qed.
+Print Assumptions sugar_tokens.
 
 (* ---- non-vacuity ---- *)
 Example ex_tokens : map t_kind (fst (lex_text [40; 97; 32; 45; 49; 32; 49; 101; 45; 53; 41; 10]))
@@ -173,16 +229,16 @@ Example ex_tokens : map t_kind (fst (lex_text [40; 97; 32; 45; 49; 32; 49; 101; 
 Proof. vm_compute. reflexivity. Qed.
 
 Example ex_three_cuts :
-  observe (parse_pieces true false 100 [[40; 100]; [101; 102; 32; 34; 40]; [40; 34; 32]; [120; 41]])
-  = observe (parse_whole true false 100 [40; 100; 101; 102; 32; 34; 40; 40; 34; 32; 120; 41]).
+  observe (parse_pieces true true 100 [[40; 100]; [101; 102; 32; 34; 40]; [40; 34; 32]; [120; 41]])
+  = observe (parse_whole true true 100 [40; 100; 101; 102; 32; 34; 40; 40; 34; 32; 120; 41]).
 Proof. vm_compute. reflexivity. Qed.
 
-Example ex_more_input : fst (observe (parse_whole true false 100 [40; 97; 32; 91; 49])) = StMore.
+Example ex_more_input : fst (observe (parse_whole true true 100 [40; 97; 32; 91; 49])) = StMore.
 Proof. vm_compute. reflexivity. Qed.
 
 (* the repaired look-aheads: "(%" then "a)" *)
 Example ex_sugar_cut :
-  observe (parse_pieces true false 100 [[40; 37]; [97; 41]]) = observe (parse_whole true false 100 [40; 37; 97; 41]).
+  observe (parse_pieces true true 100 [[40; 37]; [97; 41]]) = observe (parse_whole true true 100 [40; 37; 97; 41]).
 Proof. vm_compute. reflexivity. Qed.
 
 Example ex_pieces_ok : pieces_ok false [40; 97] [[32; 98; 41; 10]].
